@@ -106,7 +106,9 @@ AttemptEnd(r) ==
        /\ CASE k \in Answered ->
                  /\ rq' = [rq EXCEPT ![r] = [@ EXCEPT !.phase = "responded", !.started = TRUE]]
                  /\ EBRecord(e, TRUE) /\ UNCHANGED status
-                 /\ cnt' = [cnt EXCEPT ![e].ok = @ + 1]
+                 \* C19: a success is a response the client received in full with a success status; an error
+                 \* status the client saw is never recorded as a success
+                 /\ cnt' = IF rq[r].pst < 400 THEN [cnt EXCEPT ![e].ok = @ + 1] ELSE [cnt EXCEPT ![e].fail = @ + 1]
             [] k \in Post ->
                  /\ rq' = [rq EXCEPT ![r] = [@ EXCEPT !.phase = "truncated", !.started = TRUE]]
                  /\ EBRecord(e, TRUE) /\ UNCHANGED status
@@ -139,7 +141,10 @@ Refused(r, e) ==
 BreakerSkip(r, e) ==
     /\ engine = "olla" /\ r \in Reqs /\ rq[r].phase = "choosing" /\ e \in Untried(r) /\ ebOpen[e]
     /\ rq' = [rq EXCEPT ![r] = [@ EXCEPT !.skipped = @ \cup {e}]]
-    /\ UNCHANGED <<engine, status, down, models, ebFail, ebOpen, gauge, cnt>>
+    \* the engine books the refused dispatch as a failed request on that endpoint (allowed: the
+    \* properties only fix how ATTEMPTS are counted)
+    /\ cnt' = [cnt EXCEPT ![e].fail = @ + 1]
+    /\ UNCHANGED <<engine, status, down, models, ebFail, ebOpen, gauge>>
 
 \* the request fails only when every candidate has been tried or skipped (C04)
 GiveUp(r) ==
@@ -222,7 +227,7 @@ OutOfRotation == [][\A r \in DOMAIN rq' \ Reqs : \A e \in rq'[r].cands : status[
 \* C19: every attempt recorded exactly once per endpoint
 Conserved == \A e \in EP :
     cnt[e].ok + cnt[e].fail + Cardinality(InFlight(e)) =
-        Cardinality({r \in Reqs : e \in rq[r].tried})
+        Cardinality({r \in Reqs : e \in rq[r].tried}) + Cardinality({r \in Reqs : e \in rq[r].skipped})
 TypeOK == /\ \A e \in EP : gauge[e] \in Nat /\ ebFail[e] \in 0..EBThreshold
           /\ \A r \in Reqs : rq[r].phase \in {"choosing", "attempting", "responded", "truncated", "failed", "done"}
 
